@@ -4,7 +4,7 @@ Model/Lines — executable model of `succinctly::text::LineIndex` (src/text/line
 
 * `usize` is 64 bits (`USIZE = 2^64`), `u32` casts are `% 2^32`.  The harness and the crate's
   release profile compile with overflow checks off, so `+`/`+=` wrap; the model wraps at exactly
-  the places the code can (`offset - start + 1`, `line_start + column - 1`, `line_idx += 1`).
+  the places the code can (`offset - start + 1`, `line_idx += 1`); `to_offset` uses `checked_add`.
   A subtraction that would underflow and the `.expect(..)` on `predecessor` are modelled as an
   explicit panic (`none` / `Answer.panic`); the theorems show they never happen.
 * The Elias–Fano sequence `starts` is kept abstractly as the plain `List Nat` it encodes;
@@ -146,14 +146,17 @@ def toLineColumn (cap : Nat) (ix : LineIndex) (cache : Cache) (offset : Nat) :
 def lineStart (ix : LineIndex) (line : Nat) : Option Nat :=
   if line = 0 then none else efGet ix.starts (line - 1)
 
-/-- `LineIndex::to_offset`: `self.line_start(line)? + column - 1` in wrapping `usize` arithmetic. -/
+/-- `LineIndex::to_offset`: `self.line_start(line)?.checked_add(column - 1)?` (`column ≥ 1` there;
+`checked_add` answers `None` when the sum does not fit `usize`), then the bounds test. -/
 def toOffset (ix : LineIndex) (line column : Nat) : Option Nat :=
   if column = 0 then none
   else match lineStart ix line with
     | none => none
     | some s =>
-      let offset := ((s + column) % USIZE + (USIZE - 1)) % USIZE
-      if offset < ix.textLen then some offset else none
+      if s + (column - 1) < USIZE then                           -- checked_add(column - 1)?
+        let offset := s + (column - 1)
+        if offset < ix.textLen then some offset else none
+      else none
 
 /-- `LineIndex::line_count` -/
 def lineCount (ix : LineIndex) : Nat := efLen ix.starts
